@@ -643,7 +643,7 @@ def dryrun(pid, tier, replay):
     # the read-only tools exist in the real binary only: family `tools` runs there (H2)
     h2 = dict(fams=[dict(fam="tools", K=2, CH=2), dict(fam="toolslogs", K=1, CH=1, keep=True), dict(fam="toolstwo", K=2, CH=1, keep=True)] if tier == "quick" else [dict(fam="tools", K=12, CH=6), dict(fam="toolslogs", K=6, CH=1, keep=True), dict(fam="toolstwo", K=8, CH=1, keep=True)],
               limit=130 if tier == "quick" else 1500, maxruns=1)
-    return engine.engine_check(pid, fams, tier, maxruns=8 if tier == "quick" else 32, props=["C19"], h2=h2)
+    return engine.engine_check(pid, fams, tier, maxruns=8 if tier == "quick" else 32, props=["C19"], h2=h2, stream=True)
 
 
 @reg("C18")
